@@ -3,6 +3,7 @@ package scen
 import (
 	"fmt"
 	"regexp"
+	"sort"
 	"strings"
 
 	"mcrt"
@@ -156,6 +157,37 @@ func c04Oracle(sp *Spec, x *X, res *mcrt.Result) (string, string) {
 		}
 	}
 	k, d, rep := termOracle(sp, x, writes, w, h)
+	if k == "" && !sp.Delay && x.FaultStep == 0 && sp.Refresh == "auto" {
+		// the lines meant to persist are the lines that were written: what the frames carry as text, taken together,
+		// is exactly what Progress.Write accepted before Wait returned (the closing render carries the last of it)
+		var want, got []string
+		for _, c := range x.Calls {
+			if !strings.HasPrefix(c.Op, "write(") && !strings.HasPrefix(c.Op, "writebuf(") {
+				continue
+			}
+			var text string
+			fmt.Sscanf(c.Op[strings.Index(c.Op, "(")+1:len(c.Op)-1], "%q", &text)
+			if c.Res == fmt.Sprintf("%d,nil", len(text)) && c.Inv < x.WaitStep {
+				for _, l := range strings.Split(strings.TrimSuffix(text, "\n"), "\n") {
+					want = append(want, l)
+				}
+			}
+		}
+		for _, wr := range writes {
+			if wr.Data == "!ERR" {
+				continue
+			}
+			f := ParseFrame(OutWrite{Data: strings.ReplaceAll(wr.Data, "\r\n", "\n")})
+			for _, tx := range f.Text {
+				got = append(got, cleanLine(tx))
+			}
+		}
+		sort.Strings(want)
+		sort.Strings(got)
+		if strings.Join(want, "\n") != strings.Join(got, "\n") {
+			return "persisted-text", fmt.Sprintf("lines written through the container: %q; lines the frames carry: %q", want, got)
+		}
+	}
 	if k != "" && !(sp.Pop && sp.Delay) {
 		// (pop mode under a render delay: cycles whose output was discarded advance a finished bar towards its pop
 		// frame unseen, so the screen model, which counts the frames it sees, cannot tell a popped row from a live
@@ -287,6 +319,10 @@ func c04Programs(tier string) []*Spec {
 			mk("write", func(sp *Spec) {
 				sp.Clients = append(sp.Clients, []Op{{K: "write", S: "first line\n"}, {K: "write", S: "second line\nthird line\n"}})
 			})
+			mk("write-reused-buffer", func(sp *Spec) {
+				// a logger that formats every line into one scratch buffer
+				sp.Clients = append(sp.Clients, []Op{{K: "writebuf", S: "first-line-longest\n"}, {K: "writebuf", S: "second line\n"}, {K: "writebuf", S: "third\n"}})
+			})
 			mk("lateadd", func(sp *Spec) {
 				sp.Bars = append(sp.Bars, BarSpec{Total: 1, ExtRows: 1})
 				sp.Clients[0] = append([]Op{{K: "incr", B: 0, N: 1}, {K: "add", B: 2}, {K: "incr", B: 2, N: 1}}, sp.Clients[0][1:]...)
@@ -300,6 +336,13 @@ func c04Programs(tier string) []*Spec {
 				mk("delay", func(sp *Spec) {
 					sp.Delay = true
 					sp.Clients = append(sp.Clients, []Op{{K: "undelay"}})
+				})
+				// the work is over before the render delay is: bars finish (or the container is cancelled) and Wait
+				// returns while the delay is still pending; not a byte may have been written
+				mk("delay-outlasts-the-bars", func(sp *Spec) { sp.Delay = true })
+				mk("delay-outlasts-cancel", func(sp *Spec) {
+					sp.Delay = true
+					sp.Clients[1] = []Op{{K: "incr", B: 1, N: 1}, {K: "cancel"}}
 				})
 			}
 		}
